@@ -152,6 +152,84 @@ func c20OneInner(c *Ctx, words [][]byte, queries [][]byte) {
 	c.Case("TRIE "+wl+" "+strings.Join(qparts, " "), strings.Join(oparts, " "))
 }
 
+// c20History runs insertions and completion requests INTERLEAVED on one Completion object and one callback (what a
+// session does: every evaluated input records new names, every tab asks): after each step the callback's answer must be
+// the one of a fresh index holding the words inserted so far.  op = "I"+word or "T"+typed.
+func c20History(c *Ctx, ops []string) {
+	defer func() {
+		if r := recover(); r != nil {
+			c.Fail("trie-panic", "HIST "+histKey(ops), fmt.Sprint(r))
+		}
+	}()
+	ac := repl.NewCompletion()
+	cb := ac.AutoComplete()
+	set := map[string]bool{}
+	var wparts []string
+	for i, op := range ops {
+		c.Eval()
+		arg := op[1:]
+		if op[0] == 'I' {
+			ac.Trie.Insert(arg)
+			if len(arg) > 0 {
+				set[arg] = true
+				wparts = append(wparts, Hx([]byte(arg)))
+			} else {
+				wparts = append(wparts, "e")
+			}
+			continue
+		}
+		wl := "-"
+		if len(wparts) > 0 {
+			wl = strings.Join(wparts, ",")
+		}
+		var exp []string
+		for w := range set {
+			if strings.HasPrefix(w, arg) {
+				exp = append(exp, w)
+			}
+		}
+		sort.Strings(exp)
+		if got := ac.Trie.Contains(arg); got != set[arg] {
+			c.Fail("contains-mismatch:history", "HIST "+histKey(ops[:i+1]), fmt.Sprintf("Contains(%q)=%v want %v", arg, got, set[arg]))
+		}
+		var buf bytes.Buffer
+		nl, np, ok := cb(&terminal.Terminal{Out: &buf}, arg, len(arg), '\t')
+		obs := "T=none"
+		if !ok {
+			if len(exp) != 0 {
+				c.Fail("completion-missing:history", "HIST "+histKey(ops[:i+1]), fmt.Sprintf("typed %q: no completion although %q are defined", arg, exp))
+			}
+		} else {
+			obs = fmt.Sprintf("T=%s:%d", Hx([]byte(nl)), np)
+			bad := !strings.HasPrefix(nl, arg) || np != len(nl) || len(exp) == 0
+			for _, w := range exp {
+				if !strings.HasPrefix(w, nl) {
+					bad = true
+				}
+			}
+			if len(exp) > 0 && nl != exp[0][:lcpLen(exp)] {
+				bad = true
+			}
+			if bad {
+				c.Fail("completion-not-extension:history", "HIST "+histKey(ops[:i+1]), fmt.Sprintf("typed %q -> %q, defined candidates %q", arg, nl, exp))
+			}
+		}
+		if len(exp) > 1 {
+			c.NonTrivial("H" + histKey(ops[:i+1]))
+		}
+		c.Case("TRIE "+wl+" T:"+Hx([]byte(arg)), obs)
+	}
+	c.Count(fmt.Sprintf("history-steps=%d", len(ops)))
+}
+
+func histKey(ops []string) string {
+	var p []string
+	for _, o := range ops {
+		p = append(p, string(o[0])+Hx([]byte(o[1:])))
+	}
+	return strings.Join(p, ",")
+}
+
 func b2i(b bool) int {
 	if b {
 		return 1
@@ -230,6 +308,62 @@ func runC20(c *Ctx) {
 		sub(0, nil)
 	}
 	c.Extra["exhaustive"] = true
+	// interleaved histories on one Completion object: exhaustive over a small op set, then random longer ones
+	c20History(c, []string{"Ia", "Ta", "Iaa", "Taa"})
+	c20History(c, []string{"Iab", "Tab", "Iabcd", "Tabc"})
+	hops := []string{"Ia", "Iaa", "Iab", "Ib", "T", "Ta", "Taa", "Tab", "Tb"}
+	hlen := 4
+	if c.Thorough() {
+		hops = append(hops, "Iaaa", "Taaa", "Iba", "Tba")
+		hlen = 5
+	}
+	var hrec func(cur []string)
+	hrec = func(cur []string) {
+		if len(cur) > 0 && cur[len(cur)-1][0] == 'T' {
+			c20History(c, cur)
+		}
+		if len(cur) == hlen {
+			return
+		}
+		for _, o := range hops {
+			hrec(append(append([]string{}, cur...), o))
+		}
+	}
+	hrec(nil)
+	hn := 600
+	if c.Thorough() {
+		hn = 30000
+	}
+	halpha := []byte("ab(\x00\xff")
+	for i := 0; i < hn; i++ {
+		var ops []string
+		var seen []string
+		for k := 0; k < 4+c.R.Intn(8); k++ {
+			var w []byte
+			if len(seen) > 0 && c.R.Intn(3) > 0 { // extend or truncate something seen: shared prefixes, end-marker upgrades
+				b := []byte(seen[c.R.Intn(len(seen))])
+				if c.R.Intn(2) == 0 && len(b) > 0 {
+					w = b[:c.R.Intn(len(b)+1)]
+				} else {
+					w = append(append([]byte{}, b...), halpha[c.R.Intn(len(halpha))])
+					if c.R.Intn(3) == 0 {
+						w = append(w, halpha[c.R.Intn(len(halpha))])
+					}
+				}
+			} else {
+				for j := 0; j < 1+c.R.Intn(3); j++ {
+					w = append(w, halpha[c.R.Intn(len(halpha))])
+				}
+			}
+			if c.R.Intn(2) == 0 {
+				ops = append(ops, "I"+string(w))
+				seen = append(seen, string(w))
+			} else {
+				ops = append(ops, "T"+string(w))
+			}
+		}
+		c20History(c, ops)
+	}
 	// random longer words, with repeats and empty words
 	n := 300
 	if c.Thorough() {
@@ -270,6 +404,14 @@ func runC20(c *Ctx) {
 // replay: "TRIE <words> <query>"
 func c20Replay(c *Ctx, cs string) {
 	f := strings.Fields(cs)
+	if len(f) == 2 && f[0] == "HIST" {
+		var ops []string
+		for _, o := range strings.Split(f[1], ",") {
+			ops = append(ops, string(o[0])+string(Unhx(o[1:])))
+		}
+		c20History(c, ops)
+		return
+	}
 	if len(f) < 3 || f[0] != "TRIE" {
 		fmt.Println("bad replay case")
 		return
